@@ -383,10 +383,7 @@ class Geometry(object):
         # [0, 1, ..., r-1, r+1] for `surf`, and the output axes are set to
         # [0, 1, ..., r-1, r]. This automatically supports broadcasting
         # along the axes 0, ..., r-1.
-        matrix_axes = list(range(matrix.ndim))
-        surf_axes = list(range(matrix.ndim - 2)) + [matrix_axes[-1]]
-        out_axes = list(range(matrix.ndim - 1))
-        det_part = np.einsum(matrix, matrix_axes, surf, surf_axes, out_axes)
+        det_part = np.einsum('...ij,...j->...i', matrix, surf)
 
         refpt = self.det_refpoint(mparam)
         det_pt_pos = refpt + det_part
